@@ -221,6 +221,6 @@ char *ThreadLink::buffer(void) {return write_buffer;}
 /**
  * Access to write buffer length
  */
-size_t ThreadLink::buffer_size(void) const {return BufferSize;}
+size_t ThreadLink::buffer_size(void) const {return MaxMsg;}
 
 };
